@@ -104,16 +104,41 @@ def loopStep (tol : Rat) (manual : Bool) (i : Nat) (st : LoopState) : Except Err
 def runLoop (tol : Rat) (manual : Bool) (k : Nat) (st : LoopState) : Except Err LoopState :=
   (List.range k).foldlM (fun st i => loopStep tol manual i st) st
 
-/-- `_reduce_terms`: the operator is rebuilt with `+=` after every stabilizer -/
+/-- executable form of the exact-regime predicate of one `+=` (`ExactAdd` of OFV/Proofs/C01Hom.lean):
+no partial sum is non-zero but below the tolerance (then `+=` prunes nothing it should keep) -/
+def exactAddB (tol : Rat) : Op → Op → Bool
+  | _, [] => true
+  | a, (t, c) :: b =>
+    (!(GQ.isSmall tol (Dict.getD a t 0 + c)) || decide (Dict.getD a t 0 + c = 0)) &&
+    exactAddB tol (if GQ.isSmall tol (Dict.getD a t 0 + c) then Dict.erase a t
+                   else Dict.set a t (Dict.getD a t 0 + c)) b
+
+/-- the exact regime of `for p in pieces: acc += p` -/
+def exactSumB (tol : Rat) : Op → List Op → Bool
+  | _, [] => true
+  | acc, p :: ps => exactAddB tol acc p && exactSumB tol (Model.iadd tol acc p) ps
+
+/-- the body of the `for i, _ in enumerate(stabilizer_list)` loop of `_reduce_terms` -/
+def redBody (tol : Rat) (manual : Bool) (acc : Op × LoopState) (i : Nat) : Except Err (Op × LoopState) := do
+  let st := { acc.2 with terms := acc.1.map fun e => [e] }
+  let st' ← loopStep tol manual i st
+  let newOp := st'.terms.foldl (fun o t => Model.iadd tol o t) []
+  .ok (newOp, st')
+
+/-- the loop body together with the running exactness flag -/
+def redBodyX (tol : Rat) (manual : Bool) (acc : (Op × LoopState) × Bool) (i : Nat) :
+    Except Err ((Op × LoopState) × Bool) := do
+  let r ← redBody tol manual acc.1 i
+  .ok (r, acc.2 && exactSumB tol [] r.2.terms)
+
+/-- `_reduce_terms`: the operator is rebuilt with `+=` after every stabilizer.  Returns
+`(terms, fixed_positions, stale, exact)`; `exact` tells whether every `new_terms +=` of this run was
+in the exact regime (the hypothesis of `reduce_terms_agrees_on_codespace`, evaluated per input). -/
 def reduceTerms (tol : Rat) (terms : Op) (stabs : List Op) (manual : Bool) (fixed : List Nat) :
-    Except Err (Op × List Nat × Bool) := do
+    Except Err (Op × List Nat × Bool × Bool) := do
   let init : LoopState := ⟨[], stabs, if manual then fixed else [], none, false⟩
-  let r ← (List.range stabs.length).foldlM (fun (acc : Op × LoopState) i => do
-    let st := { acc.2 with terms := acc.1.map fun e => [e] }
-    let st' ← loopStep tol manual i st
-    let newOp := st'.terms.foldl (fun o t => Model.iadd tol o t) []
-    .ok (newOp, st')) (terms, init)
-  .ok (r.1, r.2.fixed, r.2.stale)
+  let r ← (List.range stabs.length).foldlM (redBodyX tol manual) ((terms, init), true)
+  .ok (r.1.1, r.1.2.fixed, r.1.2.stale, r.2)
 
 /-- `_lookup_term` -/
 def lookupTerm (pauli : Term) (terms1 : List Op) (terms2 : List Term) : Op :=
@@ -126,7 +151,7 @@ def lookupTerm (pauli : Term) (terms1 : List Op) (terms2 : List Term) : Op :=
 
 /-- `_reduce_terms_keep_length` -/
 def reduceTermsKeepLength (tol : Rat) (terms : Op) (stabs : List Op) (manual : Bool) (fixed : List Nat) :
-    Except Err (Op × List Nat × Bool) := do
+    Except Err (Op × List Nat × Bool × Bool) := do
   let dup : List Term := terms.map (·.1)
   let init : LoopState := ⟨dup.map fun x => mk .qubit x 1, stabs, if manual then fixed else [], none, false⟩
   let st ← runLoop tol manual stabs.length init
@@ -138,7 +163,7 @@ def reduceTermsKeepLength (tol : Rat) (terms : Op) (stabs : List Op) (manual : B
     .ok (smul (GQ.inv e.2) (mk .qubit x 1))
   let keys ← termList.mapM fun ent => do .ok (← firstEntry ent).1
   let out := newTerms.foldl (fun o (ps, c) => Model.iadd tol o (smul c (lookupTerm ps dupOps keys))) []
-  .ok (out, st.fixed, st.stale)
+  .ok (out, st.fixed, st.stale, true)
 
 def hasDup : List Nat → Bool
   | [] => false
@@ -146,7 +171,7 @@ def hasDup : List Nat → Bool
 
 /-- `reduce_number_of_terms` (returns also `fixed_positions` and whether a stale `fixed_op` was used) -/
 def reduceNumberOfTerms (tol : Rat) (operator : Op) (stabs : List Op) (maintainLength manual : Bool)
-    (fixed : Option (List Nat)) : Except Err (Op × List Nat × Bool) := do
+    (fixed : Option (List Nat)) : Except Err (Op × List Nat × Bool × Bool) := do
   checkLinearity stabs
   checkCommuting tol stabs
   let fixedL ← if manual then
@@ -178,10 +203,10 @@ def qbitOrder (n : Nat) (rmSorted : List Nat) : List (Option Nat) :=
 
 /-- `taper_off_qubits` -/
 def taperOffQubits (tol : Rat) (operator : Op) (stabs : List Op) (manual : Bool) (fixed : Option (List Nat)) :
-    Except Err (Op × List Nat × Bool) := do
+    Except Err (Op × List Nat × Bool × Bool) := do
   let nStabs := stabs.foldl (fun m s => max m (countQubits s)) 0
   let n := max (countQubits operator) nStabs
-  let (ham, rm, stale) ← reduceNumberOfTerms tol operator stabs false manual fixed
+  let (ham, rm, stale, exact) ← reduceNumberOfTerms tol operator stabs false manual fixed
   let rmSorted := rm.foldr insertSorted []
   let order := qbitOrder n rmSorted
   let out ← ham.foldlM (fun (acc : Op) (e : Term × GQ) =>
@@ -193,7 +218,7 @@ def taperOffQubits (tol : Rat) (operator : Op) (stabs : List Op) (manual : Bool)
         | some none => .ok l
         | some (some q) => .ok (l ++ [(q, p.2)])) []
       .ok (Model.iadd tol acc (mk .qubit tpls e.2))) []
-  .ok (out, rmSorted, stale)
+  .ok (out, rmSorted, stale, exact)
 
 /-! ### qubit_operator_transforms.py -/
 
@@ -205,18 +230,28 @@ def indexOf (l : List Nat) (x : Nat) : Nat :=
 /-- new index of a kept qubit: `j - len([q for q in qubits if q < j])` -/
 def shiftDown (R : List Nat) (j : Nat) : Nat := j - (R.filter fun q => q < j).length
 
-/-- `project_onto_sector` -/
-def projectOntoSector (tol : Rat) (operator : Op) (qubits sectors : List Nat) : Except Err Op :=
+/-- what one term contributes to `project_onto_sector`: nothing when it has `X` / `Y` on a removed
+qubit, otherwise the re-indexed term with the sector sign -/
+def projPiece (qubits sectors : List Nat) (x : Term × GQ) : Option Op :=
+  if x.1.any (fun t => qubits.contains t.1 && (t.2 == 1 || t.2 == 2)) then none
+  else
+    let newTerm := (x.1.filter fun t => !qubits.contains t.1).map fun t => (shiftDown qubits t.1, t.2)
+    let e := ((x.1.filter fun t => qubits.contains t.1).map fun t =>
+      sectors[indexOf qubits t.1]?.getD 0).foldl (· + ·) 0
+    some (mk .qubit newTerm (x.2 * GQ.sgn e))
+
+/-- one `projected_operator += …` together with the running exactness flag -/
+def projStep (tol : Rat) (qubits sectors : List Nat) (acc : Op × Bool) (x : Term × GQ) : Op × Bool :=
+  match projPiece qubits sectors x with
+  | none => acc
+  | some p => (Model.iadd tol acc.1 p, acc.2 && exactAddB tol acc.1 p)
+
+/-- `project_onto_sector`; the second component tells whether every `projected_operator +=` of this
+run was in the exact regime -/
+def projectOntoSector (tol : Rat) (operator : Op) (qubits sectors : List Nat) : Except Err (Op × Bool) :=
   if qubits.length ≠ sectors.length then .error .valueError
   else if sectors.any (fun i => i ≠ 0 ∧ i ≠ 1) then .error .valueError
-  else .ok (operator.foldl (fun acc (term, factor) =>
-    if term.any (fun t => qubits.contains t.1 && (t.2 == 1 || t.2 == 2)) then acc
-    else
-      let newTerm := (term.filter fun t => !qubits.contains t.1).map fun t =>
-        (shiftDown qubits t.1, t.2)
-      let e := ((term.filter fun t => qubits.contains t.1).map fun t =>
-        sectors[indexOf qubits t.1]?.getD 0).foldl (· + ·) 0
-      Model.iadd tol acc (mk .qubit newTerm (factor * GQ.sgn e))) [])
+  else .ok (operator.foldl (projStep tol qubits sectors) ([], true))
 
 /-- `projection_error ** 2` (the square root is taken by numpy) -/
 def projectionErrorSq (operator : Op) (qubits sectors : List Nat) : Except Err Rat :=
@@ -254,13 +289,22 @@ def freezeScan (item : Nat × Nat) (term : Term) : Term × Int × Bool × Nat :=
   let r := term.reverse.zipIdx.foldl (freezeStep item) (([] : Term), (0 : Int), false, item.2, (0 : Int))
   (r.1, r.2.1, r.2.2.1, r.2.2.2.1)
 
+/-- one term of one pass of the outer loop of `freeze_orbitals`; the flag records that the
+accumulation into `tmp_operator` never dropped a non-zero sum below the tolerance -/
+def freezeStepX (tol : Rat) (item : Nat × Nat) (acc : Op × Bool) (e : Term × GQ) : Op × Bool :=
+  let sc := freezeScan item e.1
+  let c0 : GQ := if sc.2.2.1 then 0 else e.2
+  let c1 : GQ := if sc.2.1 % 2 ≠ 0 then c0 * (-1) else c0
+  if c1 ≠ 0 ∧ sc.2.2.2 = item.2 then
+    (Model.iadd tol acc.1 (mk .fermion sc.1 c1), acc.2 && exactAddB tol acc.1 (mk .fermion sc.1 c1))
+  else acc
+
+/-- one pass of the outer loop of `freeze_orbitals`, with the exact-regime flag -/
+def freezeOneX (tol : Rat) (item : Nat × Nat) (A : Op) : Op × Bool :=
+  A.foldl (freezeStepX tol item) ([], true)
+
 /-- one pass of the outer loop of `freeze_orbitals` -/
-def freezeOne (tol : Rat) (item : Nat × Nat) (A : Op) : Op :=
-  A.foldl (fun tmp (term, coef) =>
-    let (newTerm, nSwaps, dead, occ) := freezeScan item term
-    let c0 : GQ := if dead then 0 else coef
-    let c1 : GQ := if nSwaps % 2 ≠ 0 then c0 * (-1) else c0
-    if c1 ≠ 0 ∧ occ = item.2 then Model.iadd tol tmp (mk .fermion newTerm c1) else tmp) []
+def freezeOne (tol : Rat) (item : Nat × Nat) (A : Op) : Op := (freezeOneX tol item A).1
 
 /-- `prune_unused_indices` -/
 def pruneUnusedIndices (A : Op) : Op :=
@@ -268,14 +312,22 @@ def pruneUnusedIndices (A : Op) : Op :=
   let sorted := indices.foldr C16.insertSorted []
   A.foldl (fun acc (t, c) => Dict.set acc (t.map fun f => (indexOf sorted f.1, f.2)) c) []
 
-/-- `freeze_orbitals` -/
-def freezeOrbitals (tol : Rat) (A : Op) (occupied unoccupied : List Nat) (prune : Bool) : Op :=
+/-- the outer loop of `freeze_orbitals` over the frozen `(index, occupancy)` pairs -/
+def freezeAll (tol : Rat) (frozen : List (Nat × Nat)) (acc : Op × Bool) : Op × Bool :=
+  frozen.foldl (fun (acc : Op × Bool) item =>
+    ((freezeOneX tol item acc.1).1, acc.2 && (freezeOneX tol item acc.1).2)) acc
+
+/-- `freeze_orbitals`, with the exact-regime flag of the run -/
+def freezeOrbitalsX (tol : Rat) (A : Op) (occupied unoccupied : List Nat) (prune : Bool) : Op × Bool :=
   let frozen := occupied.map (fun i => (i, 1)) ++ unoccupied.map (fun i => (i, 0))
-  let B := frozen.foldl (fun acc item => freezeOne tol item acc) A
-  let C := B.map fun (t, c) =>
-    let flips := (occupied.map fun idx => (t.filter fun f => f.1 > idx).length).foldl (· + ·) 0
-    (t, if flips % 2 = 0 then c else c * (-1))
-  if prune then pruneUnusedIndices C else C
+  let B := freezeAll tol frozen (A, true)
+  let C := B.1.map fun (e : Term × GQ) =>
+    (e.1, if ((occupied.map fun idx => (e.1.filter fun f => f.1 > idx).length).foldl (· + ·) 0) % 2 = 0
+      then e.2 else e.2 * (-1))
+  (if prune then pruneUnusedIndices C else C, B.2)
+
+def freezeOrbitals (tol : Rat) (A : Op) (occupied unoccupied : List Nat) (prune : Bool) : Op :=
+  (freezeOrbitalsX tol A occupied unoccupied prune).1
 
 /-! ### remove_symmetry_qubits.py -/
 
